@@ -36,7 +36,14 @@ struct Bld {
             if (!tp.edge_end_used && (want_end || (!want_start && r.chance(2, 3)))) {
                 tp.edge_end_used = true;
                 uint32_t o = ARENA_HI - n; // ends in the first half of the word shared with the next task
-                if (!bytes.empty()) op.blobs.push_back({o, bytes});
+                std::string content = bytes;
+                // a third of these buffers hold no terminator at all: whatever the call does then must not depend on
+                // what follows the buffer
+                if (r.chance(1, 3)) {
+                    for (auto &ch : content) if (!ch) ch = 'y';
+                    content.resize(n, 'y');
+                }
+                if (!content.empty()) op.blobs.push_back({o, content});
                 return o;
             }
             if (!tp.edge_start_used && n <= 64) {
